@@ -293,3 +293,45 @@ func VerifC09_q_reservedVsRangeRequest() {
 		verifAssert("C09/reserved-not-allocated-ranges", ip != r, "a pod requesting IP ranges was bound with a reserved IP")
 	}
 }
+
+// BOUND: topologies {0,1,3}; up to 2 pods bound; the configmap changes to a variant that drops addresses; the reload (updateConfigMap) runs with one API call failing cleanly at a symbolic position 1..4 (e.g. the listing of the stored objects); the daemon's next poll runs updateConfigMap again without faults: afterwards the configuration in force is the new one (de-configured addresses are gone from memory and store, still configured allocations are kept, nothing de-configured is handed out)
+func VerifC09_q_failedReloadRetried() {
+	topo := []int{0, 1, 3}[nondetChoice(3)]
+	w := vpNewWorld(topo, false)
+	text0, _ := vpConfig(topo, 0)
+	w.configMap = text0
+	if _, err := w.plugin.updateConfigMap(); err != nil {
+		return
+	}
+	floatingip.VerifRotate(w.innerIPAM())
+	w.setStatefulSet(3)
+	n := nondetChoice(3)
+	for i := 0; i < n; i++ {
+		w.scheduleSts(i)
+	}
+	text1, kept := vpConfig(topo, nondetChoice(2)+1)
+	w.configMap = text1
+	w.calls, w.faultAt = 0, nondetInt(1, 4)
+	_, err1 := w.plugin.updateConfigMap()
+	w.faultAt = 0
+	verifAssume(err1 != nil || w.faulted)
+	verifReach("reload-faulted")
+	// the next poll
+	_, err2 := w.plugin.updateConfigMap()
+	floatingip.VerifRotate(w.innerIPAM())
+	verifAssert("C09/retried-reload-succeeds?", err2 == nil, "the poll after a failed reload failed without a fault")
+	all := w.ips
+	w.ips = kept
+	for _, ip := range all {
+		if !vpHas(kept, ip) {
+			inA, inU := floatingip.VerifTables(w.innerIPAM(), ip)
+			verifAssert("C09/failed-reload-retried", !inA && !inU, "after a reload that failed once, the next poll did not apply the new configuration: "+ip+" is still in the tables")
+		}
+	}
+	name, ok := w.scheduleSts(n)
+	if ok {
+		for _, ip := range vpBoundIPs(w.pods[name]) {
+			verifAssert("C09/deconfigured-not-allocated-after-retry", vpHas(kept, ip), "a pod was bound with an IP that is absent from the configuration in force: "+ip)
+		}
+	}
+}
